@@ -182,7 +182,7 @@ def check_case(case: Dict[str, Any], col: Collector, tdir: str, light: bool = Fa
     rep = {k: case.get(k) for k in ("nodes", "run_space", "rewrites")}
     labs = ["sweep" if any(n.get("sweep") for n in case["nodes"]) else "no_sweep", "run_space" if case.get("run_space") else "no_run_space"]
     if case.get("twin"):
-        labs.append("retyped_twin")
+        labs.append("name_twin" if case["twin"] == "name" else "retyped_twin")
     two_ctx = any(sum(1 for v in n["sweep"]["vars"].values() if v["kind"] == "ctx") >= 2 for n in case["nodes"] if n.get("sweep"))
     if two_ctx:
         labs.append("two_from_context_vars")
@@ -283,6 +283,43 @@ def _with_retyped_twins(cases: List[Dict[str, Any]]) -> List[Dict[str, Any]]:
     return out
 
 
+def _toggle_sep(key: str) -> str:
+    return key.replace("_", "\0").replace(".", "_").replace("\0", ".")
+
+
+def _with_name_twins(cases: List[Dict[str, Any]]) -> List[Dict[str, Any]]:
+    """History dimension: configurations whose generated context-processor classes get the same *name* although
+    they mean different things (dotted vs underscored keys; `a_to_b -> c` vs `a -> b_to_c`) are observed next to
+    each other, in opposite orders in the process variants.  Each is its own configuration; none may be served
+    something left behind by the other."""
+    out: List[Dict[str, Any]] = []
+    for i, c in enumerate(cases):
+        out.append(c)
+        if i % 3 != 1 or c.get("twin"):
+            continue
+        for j, n in enumerate(c["nodes"]):
+            mr = M.RE_RENAME.match(n["p"]) if not n.get("sweep") else None
+            md = M.RE_DELETE.match(n["p"]) if not n.get("sweep") else None
+            twins: List[str] = []
+            if mr:
+                src, dst = mr["src"], mr["dst"]
+                if _toggle_sep(src) != src or _toggle_sep(dst) != dst:
+                    twins.append(f"rename:{_toggle_sep(src)}:{_toggle_sep(dst)}")
+                twins += [f"rename:{src}_to_{dst}:z", f"rename:{src}:{dst}_to_z"]
+            elif md and _toggle_sep(md["key"]) != md["key"]:
+                twins.append(f"delete:{_toggle_sep(md['key'])}")
+            elif md:
+                twins += [f"delete:{md['key']}.x", f"delete:{md['key']}_x"]
+            for t in twins:
+                twin = copy.deepcopy(c)
+                twin["nodes"][j] = dict(twin["nodes"][j], p=t)
+                twin["twin"] = "name"
+                out.append(twin)
+            if twins:
+                break
+    return out
+
+
 def plan(tier: str, seed: int, scale: float = 1.0) -> List[Dict[str, Any]]:
     groups, n = (8, 90) if tier == "quick" else (40, 160)
     specs = []
@@ -311,7 +348,7 @@ def run_shard(spec: Dict[str, Any]) -> Dict[str, Any]:
         cases.append(c)
 
     collect()
-    cases = _with_retyped_twins(cases)
+    cases = _with_name_twins(_with_retyped_twins(cases))
     order = list(reversed(cases)) if v["reverse"] else list(cases)
     col = Collector()
     tdir = tempfile.mkdtemp(prefix="c04-", dir=spec.get("workdir", "."))
@@ -388,7 +425,7 @@ def valid(case: Any) -> bool:
 
 def label_requirements(tier: str) -> Dict[str, Any]:
     req: Dict[str, Any] = {"sweep": 0.2, "run_space": 0.2, "two_from_context_vars": 0.05, "pipeline_object_reused": 0.3,
-                           "history_reobserved": 40, "expression_commuted": 0.03, "retyped_twin": 0.03}
+                           "history_reobserved": 40, "expression_commuted": 0.03, "retyped_twin": 0.03, "name_twin": 0.02}
     for k in yamlrw.REWRITE_KINDS:
         req["rewrite:" + k] = 0.08
     return req
